@@ -393,6 +393,10 @@ uint32_t carquet_bit_reader_read_bits(carquet_bit_reader_t* reader, int num_bits
 
     if (reader->buffer_bits < num_bits) {
         refill_buffer(reader);
+        if (reader->buffer_bits < num_bits) {
+            /* end of data: deliver the bits that are left, zero-extended */
+            num_bits = reader->buffer_bits;
+        }
     }
 
     uint32_t result = (uint32_t)(reader->buffer & ((1ULL << num_bits) - 1));
